@@ -98,11 +98,11 @@ fn gdeflate_decode(encoded_value: &RawBytes<'_>) -> Result<Vec<u8>, CodecError> 
     let num_pages = usize::try_from(num_pages).unwrap();
 
     // Check length of dynamic header
-    let dynamic_header_length = num_pages * size_of::<u64>();
-    if encoded_value.len() < GDEFLATE_STATIC_HEADER_LENGTH + dynamic_header_length {
+    let dynamic_header_length = num_pages.saturating_mul(size_of::<u64>());
+    if encoded_value.len() < GDEFLATE_STATIC_HEADER_LENGTH.saturating_add(dynamic_header_length) {
         return Err(InvalidBytesLengthError::new(
             encoded_value.len(),
-            GDEFLATE_STATIC_HEADER_LENGTH + dynamic_header_length,
+            GDEFLATE_STATIC_HEADER_LENGTH.saturating_add(dynamic_header_length),
         )
         .into());
     }
